@@ -18,6 +18,10 @@ B `alias-decorated`  -- "attributes, text, repeaters and the self-closing mark w
                         definition (its deepest element), a repeater is written as `(definition)*N` ("the definition
                         in its place").  Shapes for which the textual spelling is not the statement's meaning are
                         skipped and counted as trivial (see `spell()`).
+B `alias-nested`     -- sentences 1 and 2 for an alias written among the children / deeper descendants of another alias (the
+                        same name, a synonym with the same definition text, a name on the outer alias's resolution chain, a
+                        random other name; built-in tables and acyclic user tables): the abbreviation must expand like the
+                        same abbreviation with both / only the outer / only the inner occurrence replaced by its definition.
 B `alias-after-history` -- sentence 1 again, *after earlier calls*: calls that raise inside nested snippet resolution (complete over
                         the alias chains of the built-in tables), at top level, in the parser; and calls that succeed with decorated
                         snippet-backed elements; then every built-in name must still expand like its definition (also with one
@@ -351,6 +355,149 @@ def decorated_is_nontrivial(args):
     return spell(defn, *deco) is not None
 
 
+# ------------------------------------------------------------------------------------------------ aliases under aliases
+# An alias written among the children / deeper descendants of another alias (the same name, a synonym with the same
+# definition text, a name on the outer alias's own resolution chain, or an unrelated one).  Sentence 1 holds for *every*
+# occurrence of a snippet name in an abbreviation, sentence 2 says where the children of the outer alias go; so each
+# occurrence may be replaced by its definition independently of the other.
+NESTED_SHAPES = [
+    # (context, outer attrs, outer text, outer repeater, link between outer alias and inner alias, inner decoration)
+    ['%s', '', '', '', '>%s', ['', '', False, '', '']],                    # X>Y
+    ['%s', '', '', '', '>e>%s', ['', '', False, '', '']],                  # X>e>Y
+    ['%s', '', '', '', '>e+%s', ['', '', False, '', '']],                  # X>e+Y
+    ['%s', '', '', '', '>%s+e', ['', '', False, '', '']],                  # X>Y+e
+    ['%s', '', '', '', '>e>f>%s', ['', '', False, '', '']],                # X>e>f>Y
+    ['%s', '', '', '', '>(e>%s)+f', ['', '', False, '', '']],              # X>(e>Y)+f
+    ['%s', '', '', '', '>%s', ['', '', False, '', '>b']],                  # X>Y>b
+    ['%s', '[x=y]', '', '', '>e>%s', ['.k', '{T}', False, '', '']],        # X[x=y]>e>Y.k{T}
+    ['%s', '', '', '*2', '>%s', ['', '', False, '*2', '']],                # X*2>Y*2
+    ['%s', '.k', '{T}', '', '>e>%s+f', ['[x=y]', '', False, '', '>b+i']],  # X.k{T}>e>(Y[x=y]>b+i)+f
+    ['p>%s+q', '', '', '', '>e>%s', ['', '', True, '', '']],               # p>(X>e>Y/)+q
+    ['ul>%s', '', '', '', '>%s', ['#i', '', False, '', '>b']],             # ul>X>Y#i>b
+]
+
+
+def nested_forms(defx, defy, outer, inner, shape):
+    """the four spellings of one case, or None where spell() has no textual spelling:
+    [outer alias + inner alias, both definitions, outer definition + inner alias, outer alias + inner definition]"""
+    ctx, oattrs, otext, orep, link, ideco = shape
+    ideco = list(ideco)
+    in_alias = alias_form(inner, *ideco)
+    in_spelled = spell(defy, *ideco)
+    if in_spelled is None:
+        return None
+    if ideco[4] and not link.endswith('%s'):
+        in_alias = '(' + in_alias + ')'
+    kids = [link % in_alias, link % ('(' + in_spelled + ')')]
+    forms = []
+    for outer_is_alias, k in ((True, 0), (False, 1), (False, 0), (True, 1)):
+        if outer_is_alias:
+            f = alias_form(outer, oattrs, otext, False, orep, kids[k])
+        else:
+            f = spell(defx, oattrs, otext, False, orep, kids[k])
+            if f is None:
+                return None
+        if ctx != '%s':
+            if not outer_is_alias or not ctx.endswith('%s'):
+                f = '(' + f + ')'
+            f = ctx % f
+        forms.append(f)
+    return forms
+
+
+def _nested_defs(syntax, snippets):
+    defs = definitions(syntax)
+    if snippets:
+        defs = dict(defs)
+        defs.update(snippets)
+    return defs
+
+
+@_reports_slow
+def check_nested(syntax, outer, inner, shape, snippets):
+    """alias `inner` among the descendants of alias `outer`: the abbreviation must expand like the same abbreviation with
+    either or both occurrences replaced by their definitions (children of the outer alias at the deepest element)"""
+    defs = _nested_defs(syntax, snippets)
+    forms = nested_forms(defs[outer], defs[inner], outer, inner, shape)
+    if forms is None:
+        return None
+    extra = {'snippets': snippets} if snippets else None
+    a = _expand(forms[0], syntax, extra)
+    for f, which in zip(forms[1:], ('both aliases replaced by their definitions', 'the outer alias %r replaced by its definition' % outer,
+                                    'the inner alias %r replaced by its definition' % inner)):
+        b = _expand(f, syntax, extra)
+        if a != b:
+            return 'syntax %s%s: %r = %r, %r = %r; expand(%r) = %r but with %s expand(%r) = %r' % (
+                syntax, ' snippets %r' % snippets if snippets else '', outer, defs[outer], inner, defs[inner], forms[0], a, which, f, b)
+    return None
+
+
+def nested_is_nontrivial(args):
+    syntax, outer, inner, shape, snippets = args
+    defs = _nested_defs(syntax, snippets)
+    return nested_forms(defs[outer], defs[inner], outer, inner, shape) is not None
+
+
+def builtin_nested_pairs(syntax, rnd, n_random):
+    """(outer, inner) pairs of built-in names, own analysis of the raw tables: every name under itself; every two names
+    with the same definition text; every name with every name on its resolution chain, both ways round; random pairs"""
+    defs = definitions(syntax)
+    names = sorted(defs)
+    pairs = [(n, n) for n in names]
+    by_def = {}
+    for n in names:
+        by_def.setdefault(defs[n], []).append(n)
+    for group in by_def.values():
+        pairs += [(a, b) for a in group for b in group if a != b]
+    for n, reach in chains(syntax):
+        for k in reach:
+            pairs += [(n, k), (k, n)]
+    for _ in range(n_random):
+        pairs.append((rnd.choice(names), rnd.choice(names)))
+    seen, out = set(), []
+    for p in pairs:
+        if p not in seen:
+            seen.add(p)
+            out.append(p)
+    return out
+
+
+def gen_acyclic_table(rnd):
+    "1..4 user snippets; a definition uses fresh names, a / img / inp and the user names before it: no cycle, every name usable"
+    n = rnd.randint(1, 4)
+    user = USER_NAMES[:n]
+    table = {}
+    for i, u in enumerate(user):
+        names = user[:i] * 3 + FRESH + list(BUILTIN_USED)
+        if i and rnd.random() < 0.2:
+            table[u] = table[rnd.choice(user[:i])]        # a second name with the same definition text
+        else:
+            table[u] = gen_definition(rnd, names)
+    return table
+
+
+def gen_nested_cases(seed, quick):
+    rnd = random.Random('c14-nested-%d' % seed)
+    for syntax in ('html', 'xsl', 'pug'):
+        own = set(k2 for k in raw_tables()[syntax] for k2 in k.split('|'))
+        for x, y in builtin_nested_pairs(syntax, rnd, 150 if quick else 1500):
+            if syntax != 'html' and quick and x not in own and y not in own:
+                continue
+            shapes = NESTED_SHAPES if (x == y or not quick) else [NESTED_SHAPES[0], NESTED_SHAPES[1], rnd.choice(NESTED_SHAPES[2:])]
+            for sh in shapes:
+                yield syntax, x, y, sh, None
+    fixed = [{'x': 'k1.c'}, {'x': 'k1.c', 'y': 'a.c[href=#]'}, {'x': 'k1', 'y': 'k1'}, {'x': 'k1>k2', 'y': 'x>k3', 'z': 'y+k1'},
+             {'a': 'a[href=u]', 'x': 'a'}, {'x': 'inp', 'y': 'img+x'}]
+    tables = fixed + [gen_acyclic_table(rnd) for _ in range(80 if quick else 3000)]
+    for t in tables:
+        names = sorted(t)
+        for x in names:
+            for y in names:
+                for sh in ([NESTED_SHAPES[0], NESTED_SHAPES[1], rnd.choice(NESTED_SHAPES[2:])] if x != y else
+                           [NESTED_SHAPES[0], NESTED_SHAPES[1], NESTED_SHAPES[6]] + rnd.sample(NESTED_SHAPES[2:], 2)):
+                    yield 'html', x, y, sh, t
+
+
 # ------------------------------------------------------------------------------------------------ user tables
 USER_NAMES = ['x', 'y', 'z', 'w', 'v']
 FRESH = ['k1', 'k2', 'k3']
@@ -644,6 +791,19 @@ def run(tier, seed):
                'alias form vs definition spelled out; cases whose definition shape cannot be spelled out textually (see spell()) are trivial',
                exhaustive=False)
     _run_decorated(c, dcases)
+    out.append(c.done())
+
+    ncases = list(gen_nested_cases(seed, quick))
+    real = [a for a in ncases if nested_is_nontrivial(a)]
+    c = Clause('alias-nested', 'B', 'an alias among the children / deeper descendants of an alias: built-in tables of html, xsl, pug -- every name '
+               'under itself, every two names with the same definition text, every name with every name on its resolution chain (both ways '
+               'round), seeded random pairs -- and %s seeded acyclic user tables of 1..4 snippets (all ordered pairs of their names); '
+               '%d shapes (X>Y, X>e>Y, X>e+Y, X>(e>Y)+f, X>Y>b, decorated, repeated, inside p>..+q / ul>..)' % ('86' if quick else '3006', len(NESTED_SHAPES)),
+               '%d (syntax, outer, inner, shape, user table) cases, %d skipped because a definition shape has no textual spelling, %d evaluated' % (
+                   len(ncases), len(ncases) - len(real), len(real)),
+               'a case is one abbreviation with two alias occurrences: it must expand like the abbreviation with both, only the outer, '
+               'only the inner occurrence replaced by the definition (children of the outer alias appended at its deepest element)', exhaustive=False)
+    run_parallel(c, 'bounded.c14', 'check_nested', real, chunk=100)
     out.append(c.done())
 
     acases = list(gen_after_cases())
